@@ -8143,7 +8143,7 @@ bool Tokenizer::simplifyRedundantParentheses()
             ret = true;
         }
 
-        if (Token::Match(tok->previous(), "! ( %name% )")) {
+        if (Token::Match(tok->previous(), "! ( %name% )") && !tok->next()->isStandardType()) {
             // Remove the parentheses
             tok->deleteThis();
             tok->deleteNext();
